@@ -117,6 +117,16 @@ func (ck *Checker) shrink(orig *Scenario, v Violation, budget int) (*Scenario, i
 			c.Segments[si].MapMode = 0
 			try(c)
 		}
+		if cur.Segments[si].GCPct != 0 {
+			c := cloneScenario(cur)
+			c.Segments[si].GCPct = 0
+			try(c)
+		}
+		if cur.Segments[si].Procs != 0 {
+			c := cloneScenario(cur)
+			c.Segments[si].Procs = 0
+			try(c)
+		}
 		if cur.Segments[si].JumpPct != 0 {
 			c := cloneScenario(cur)
 			c.Segments[si].JumpPct = 0
